@@ -2051,9 +2051,10 @@ func (s *Store) ReadFrom(r io.Reader) (int64, error) {
 	s.cdcRegistered.Unset()
 
 	// The database has been replaced, so record that it changed as of the latest
-	// applied index. Otherwise anything watching for database changes (such as
-	// automatic backups) would not notice the boot.
-	s.dbAppliedIdx.Store(s.raft.AppliedIndex())
+	// log index (the no-op just committed; Raft's applied index may not have been
+	// advanced past it yet). Otherwise anything watching for database changes
+	// (such as automatic backups) would not notice the boot.
+	s.dbAppliedIdx.Store(s.raft.LastIndex())
 
 	// Snapshot, so we load the new database into the Raft system.
 	if err := s.snapshotStore.SetDueNext(snapshot.Full); err != nil {
